@@ -480,7 +480,7 @@ type dlParams struct {
 	Target  int // 0 nil, 1 never spawned, 2 stopped, 3 foreign address
 	Msg     int // 0 int, 1 string, 2 pointer to struct
 	Sender  bool
-	Subs    int // 0 one monitor, 1 two monitors, 2 monitor + a subscriber that stopped earlier without unsubscribing, 3 monitor + a subscriber that stops without unsubscribing right before the sends
+	Subs    int // 0 one monitor, 1 two monitors, 2 monitor + a subscriber that stopped earlier without unsubscribing, 3 monitor + a subscriber that stops without unsubscribing right before the sends, 4 monitor + a subscriber with a foreign address (engine without remote)
 	Threads int
 	PerT    int
 	Op      int  // 0 Send/SendWithSender, 1 Poison, 2 Stop, 3 SendLocal
@@ -537,6 +537,10 @@ func engDeadLetter(variants []dlParams) vsched.Instance {
 				mon2 = append(mon2, Render(c.Message()))
 			}, "mon", actor.WithID("2"))
 			k.E.Subscribe(m2)
+		case 4:
+			// a subscriber on another node, on an engine that has no remote
+			k.E.Subscribe(actor.NewPID("10.0.0.7:4000", "far-sub/1"))
+			vsched.Quiesce()
 		case 2, 3:
 			gone = k.E.SpawnFunc(func(c *actor.Context) {}, "gone", actor.WithID("1"))
 			k.E.Subscribe(gone)
@@ -643,7 +647,15 @@ func engDeadLetter(variants []dlParams) vsched.Instance {
 		}
 		sort.Strings(want)
 		cmp := func(name string, got []string) {
-			mine := append([]string{}, got...)
+			var mine []string
+			for _, g := range got {
+				// forwarding an event to the foreign subscriber is itself an undeliverable send and is
+				// legitimately reported once; those reports are not about our sends
+				if p.Subs == 4 && strings.HasPrefix(g, "EngineRemoteMissing(10.0.0.7:4000/far-sub/1,") {
+					continue
+				}
+				mine = append(mine, g)
+			}
 			sort.Strings(mine)
 			if fmt.Sprint(mine) != fmt.Sprint(want) {
 				sig := "events/wrong-events-for-undeliverable-sends"
